@@ -308,6 +308,41 @@ def op5(ctx):
         yield Ob(key_of("C09-Op5", b.path, "read_only-flag"), ok, "Memory aggregate has read_only = %s (constant)" % bool(ro), b.loc(aggs[0][0], aggs[0][1]) if aggs else b.loc())
 
 
+@rule("C09-Op13", "C09", 1, "an existing file is judged as it was found: the too-small test of the writable open lies in front of File::set_len (the test of a length that the "
+      "open has just extended to the capacity option never fails - a file cut inside its header would be padded with zeros and opened)", configs=MEMCFG, also=("C05", "C06"))
+def op13(ctx):
+    b = ctx.facts.one(r"^memory::Memory::<R, PR, H>::map_mut_in$")
+    ev, res = ctx.eval(b, no_inline=(r"\{closure",))
+    sl = [e for e in res.log if e["kind"] == "call" and not e["chain"] and e["callee"].endswith("File::set_len")]
+    # the refusal: an Err return under `file length - offset < prefix`
+    errs = [r for r in res.log if r["kind"] == "ret0" and not r["chain"] and tag(r["value"]) == "variant" and r["value"][2] == "Err" and
+            any(f[0] == "cmp" and f[1] in ("Lt", "Gt") and "header" not in show(f)[:0] and ("align_of" in show(f) or "size_of" in show(f)) and ("metadata" in show(f) or "len" in show(f)) for f in ctx.facts_of(ev, r))]
+    if not sl or not errs:
+        yield Ob(key_of("C09-Op13", b.path, "anchors"), False, "set_len call(s): %d, too-small refusal(s): %d" % (len(sl), len(errs)), b.loc())
+        return
+    # the block that decides the refusal: the switch whose edge leads to the Err return; it must dominate every set_len
+    conds = [x for x, c in res.conds.items() if tag(c) == "cmp" and ("align_of" in show(c) or "size_of" in show(c)) and ("metadata" in show(c) or "len" in show(c))]
+    import dnf as D
+    # what the test itself is guarded by (`if !create_new`): a way to set_len that does not pass the test must be a newly created file
+    own = set()
+    for x in conds:
+        for f in implied_facts(ev.guards(res, x)):
+            if f[0] == "bool":
+                own.add(f)
+    ok = bool(conds) and "set_len" not in " ".join(show(res.conds[x]) for x in conds)
+    n = 0
+    for e in sl:
+        avoid = D.block_dnf(ev, res, b, e["bb"], stop=frozenset(conds))
+        if avoid is None:
+            ok = False
+            continue
+        for c in avoid:
+            n += 1
+            ok = ok and any(f[0] == "bool" and ("bool", f[1], not f[2]) in own for f in c)
+    yield Ob(key_of("C09-Op13", b.path, "size-test-before-set_len"), ok, "the too-small test (block(s) %s) lies in front of the %d set_len call(s); %d way(s) around it, each for a file the open has just created" %
+             (conds, len(sl), n), ctx.loc(sl[0]))
+
+
 @rule("C09-Op6", "C09", 1, "File::set_len is called only under file_size < offset + capacity (the file is only ever extended on open)", configs=MEMCFG)
 def op6(ctx):
     b = ctx.facts.one(r"^memory::Memory::<R, PR, H>::map_mut_in$")
@@ -487,7 +522,7 @@ OPEN_TABLE = {
 
 @rule("C09-Op8", "C09", 16, "open-function dispatch: every Memory::map* wrapper calls the constructor of its own kind with its own mapping function (read-only opens: map_in with "
       "mmap / mmap_copy_read_only; writable and copy-on-write opens: map_mut_in with mmap_mut / mmap_copy), and every Options::map* calls the Memory function of the same name",
-      configs=MEMCFG)
+      configs=MEMCFG, also=("C05",))
 def op8(ctx):
     for b in ctx.facts.find(r"^memory::Memory::<R, PR, H>::map(_mut|_copy|_copy_read_only)?(_with_path_builder)?$"):
         kind = b.name.replace("_with_path_builder", "")
